@@ -14,17 +14,17 @@ import (
 	k8sjson "k8s.io/apimachinery/pkg/util/json"
 
 	"metacontroller/pkg/apis/metacontroller/v1alpha1"
-	"metacontroller/pkg/controller/common"
 	"metacontroller/pkg/controller/common/api"
-	"metacontroller/pkg/controller/common/customize"
-	"metacontroller/pkg/controller/common/finalizer"
 	v1 "metacontroller/pkg/controller/decorator/api/v1"
 	dynamicdiscovery "metacontroller/pkg/dynamic/discovery"
 	dynamicinformer "metacontroller/pkg/dynamic/informer"
 	"metacontroller/pkg/hooks"
 	"metacontroller/pkg/zzverif/env"
 	"metacontroller/pkg/zzverif/gen"
+	stub "metacontroller/pkg/zzverif/informerstub"
 	rt "metacontroller/pkg/zzverif/rt"
+
+	"github.com/go-logr/logr"
 )
 
 const (
@@ -129,7 +129,14 @@ func verifDCGVR(r *dynamicdiscovery.APIResource) schema.GroupVersionResource {
 	return gv.WithResource(r.Name)
 }
 
+// verifNewDC builds the controller through the REAL constructor
+// (newDecoratorController) over a SharedInformerFactory whose client-go
+// informers are stubs, then swaps in what a harness has to control: the hooks,
+// the work queue and the listers (Snapshot). A field added to
+// decoratorController and initialised by the constructor is initialised here too.
 func verifNewDC(w *env.World, cfg verifDCConfig) *verifDC {
+	dynamicinformer.VerifNewSharedIndexInformer = stub.NewSharedIndexInformer
+	dynamicinformer.VerifNewLister = stub.NewLister
 	if len(cfg.Rules) == 0 {
 		cfg.Rules = []verifDCRule{{Res: env.ThingRes}}
 	}
@@ -139,9 +146,14 @@ func verifNewDC(w *env.World, cfg verifDCConfig) *verifDC {
 	if cfg.Finalize == nil {
 		cfg.Finalize = &verifDCHook{}
 	}
+	hookURL := "http://hook.ns/sync"
+	goodHook := func() *v1alpha1.Hook { return &v1alpha1.Hook{Webhook: &v1alpha1.Webhook{URL: &hookURL}} }
 	dc := &v1alpha1.DecoratorController{}
 	dc.Name = verifDCName
-	dc.Spec.Hooks = &v1alpha1.DecoratorControllerHooks{}
+	dc.Spec.Hooks = &v1alpha1.DecoratorControllerHooks{Sync: goodHook()}
+	if cfg.FinalizeEnabled {
+		dc.Spec.Hooks.Finalize = goodHook()
+	}
 	for _, r := range cfg.Rules {
 		dc.Spec.Resources = append(dc.Spec.Resources, v1alpha1.DecoratorControllerResourceRule{
 			ResourceRule:       v1alpha1.ResourceRule{APIVersion: r.Res.APIVersion, Resource: r.Res.Name},
@@ -158,35 +170,15 @@ func verifNewDC(w *env.World, cfg verifDCConfig) *verifDC {
 		}
 		dc.Spec.Attachments = append(dc.Spec.Attachments, rule)
 	}
-	sel, err := newDecoratorSelector(w.RM, dc)
-	if err != nil {
-		panic(err)
-	}
-	strat, err := makeUpdateStrategyMap(w.RM, dc)
-	if err != nil {
-		panic(err)
-	}
 	q := &env.Queue{}
 	rec := &env.Recorder{}
-	c := &decoratorController{
-		dc:              dc,
-		resources:       w.RM,
-		parentKinds:     make(common.GroupKindMap),
-		parentSelector:  sel,
-		dynClient:       w.Dyn,
-		queue:           q,
-		updateStrategy:  strat,
-		parentInformers: make(common.InformerMap),
-		childInformers:  make(common.InformerMap),
-		eventRecorder:   rec,
-		finalizer:       finalizer.NewManager(verifDCFinalizerName, cfg.FinalizeEnabled),
-		customize:       &customize.Manager{},
-		syncHook:        cfg.Sync,
-		finalizeHook:    cfg.Finalize,
+	factory := dynamicinformer.NewSharedInformerFactory(w.Dyn, 0)
+	c, err := newDecoratorController(w.RM, w.Dyn, factory, rec, dc, 1, logr.Discard())
+	if err != nil {
+		panic(err)
 	}
-	for _, r := range cfg.Rules {
-		c.parentKinds.Set(schema.GroupKind{Group: r.Res.Group, Kind: r.Res.Kind}, r.Res)
-	}
+	c.syncHook, c.finalizeHook = cfg.Sync, cfg.Finalize
+	c.queue = q
 	d := &verifDC{decoratorController: c, W: w, Queue: q, Recorder: rec, Cfg: cfg}
 	d.Snapshot(nil, nil)
 	return d
